@@ -92,6 +92,7 @@ pub fn run_workload(sub: u64, only_plan: Option<&str>, acc: &mut Acc, ctx: &Ctx,
     if w.multiline {
         args.push("-U".into());
     }
+    args.extend(gen_harmless_flags(&mut Rng::new(sub ^ 0xF1A6), &["-i", "-S", "--no-unicode"]));
     let mut enc_args = args.clone();
     if !w.bom {
         enc_args.extend(["-E".into(), if w.be { "utf-16be".into() } else { "utf-16le".into() }]);
@@ -133,21 +134,21 @@ pub fn run_workload(sub: u64, only_plan: Option<&str>, acc: &mut Acc, ctx: &Ctx,
         if got.stdout == reference.stdout && got.code == reference.code && got.stderr.is_empty() {
             continue;
         }
-        // the known transcoder defect: the final U+FFFD loses its last 1-2 bytes
+        // The known transcoder defect (known_findings.json): with pending decoder
+        // output at end of input and fewer than 4 bytes of room in the caller's
+        // buffer, the final U+FFFD loses its last 1-2 bytes. Recognised exactly:
+        // rg on the UTF-8 equivalent minus those bytes must give this very output.
         let mut class = format!("cli-differs-from-utf8-equivalent:{}", if w.mmap { "mmap" } else { "read" });
-        if w.odd_tail && got.code == reference.code && got.stderr.is_empty() {
+        if w.odd_tail && got.stderr.is_empty() {
+            let full = utf8_equivalent(&w);
             for cut in [1usize, 2] {
-                // the last line of the reference ends with EF BF BD (+ optional newline)
-                let r = &reference.stdout;
-                let tail_nl = r.ends_with(b"\n") as usize;
-                if r.len() >= 3 + tail_nl && r[..r.len() - tail_nl].ends_with(b"\xEF\xBF\xBD") {
-                    let mut alt = r[..r.len() - tail_nl - cut].to_vec();
-                    alt.extend_from_slice(&r[r.len() - tail_nl..]);
-                    if alt == got.stdout {
-                        class = "transcoder-drops-last-bytes-at-eof-with-small-buffer".into();
-                    }
+                std::fs::write(ref_dir.join("w/doc.txt"), &full[..full.len() - cut]).unwrap();
+                let alt = ctx.run(&ref_dir, &RunSpec { args: args.clone(), ..RunSpec::default() }, 60);
+                if alt.stdout == got.stdout && alt.code == got.code {
+                    class = "transcoder-drops-last-bytes-at-eof-with-small-buffer".into();
                 }
             }
+            std::fs::write(ref_dir.join("w/doc.txt"), &full).unwrap();
         }
         let summary = format!("rg on the UTF-16 file under plan {:?}: exit {} ({} bytes of stdout, stderr {:?}); on the UTF-8 equivalent: exit {} ({} bytes)", plan, got.code, got.stdout.len(), show(&got.stderr), reference.code, reference.stdout.len());
         acc.violation("C17", &class, summary, sub, body(sub, &w, &spec, &reference, &got));
